@@ -527,6 +527,12 @@ func ParseDSL(data string) (*OpenFgaDslListener, *OpenFgaDslErrorListener) {
 				cleanedSegment = strings.TrimRight(strings.Split(segment, " #")[0], " ")
 			}
 
+			// what is cut off in front of a carriage return is blanked out rather than removed, so that the
+			// rest of the line keeps its columns (the lexer takes the blanks into the line break)
+			if idx < len(segments)-1 {
+				cleanedSegment += strings.Repeat(" ", len(segment)-len(cleanedSegment))
+			}
+
 			segments[idx] = cleanedSegment
 		}
 
